@@ -256,7 +256,7 @@ func TestC03(t *testing.T) {
 	behs := behav.LoadEnv()
 	K, M := behav.EnvInt("VERIF_K", 2), behav.EnvInt("VERIF_M", 2)
 	seed := behav.Seed()
-	inners := []string{"edge", "array", "thresh", "comb", "runs", "runthresh", "full", "mixed"}
+	inners := []string{"edge", "array", "thresh", "comb", "runs", "runthresh", "longruns", "full", "mixed"}
 	// quick: stashed arrays (edge) always, one heavier shape by seed (run/bitmap/heap arrays)
 	profs := []profSel{{inner: "edge", keyset: "low"}, {inner: inners[1+int(seed)%(len(inners)-1)], keyset: "gap"}}
 	if behav.Thorough() {
@@ -269,7 +269,14 @@ func TestC03(t *testing.T) {
 	total := len(behs) * len(profs)
 	behav.Parallel(total, func(i int) {
 		bi, pi := i/len(profs), i%len(profs)
-		c := &deriveCase{Beh: behs[bi], Inner: profs[pi].inner, KeySet: profs[pi].keyset, K: K, M: M, Seed: seed,
+		ps := profs[pi]
+		if !behav.Thorough() && pi > 0 {
+			// quick tier: the second profile rotates over all shapes (keys stay low/gap:
+			// OffsetRange's exclusive end cannot express the top key)
+			r := rotProf(bi, seed)
+			ps = profSel{inner: r.inner, keyset: []string{"low", "gap"}[(bi+int(seed))%2]}
+		}
+		c := &deriveCase{Beh: behs[bi], Inner: ps.inner, KeySet: ps.keyset, K: K, M: M, Seed: seed,
 			Style: EncStyles[(bi+pi+int(seed))%len(EncStyles)]}
 		exec(c, res.Cover)
 		res.CountEval()
